@@ -1343,12 +1343,18 @@ class Frame:
     def subscript(self, obj: Any, sl: ast.expr) -> Any:  # noqa: C901
         eng = self.eng
         if isinstance(obj, Opaque):
+            if getattr(eng, "strict_partial_ops", False) and not isinstance(sl, ast.Slice):
+                # (additive, vc.pystrops) totality clauses: the IndexError / KeyError outcome would be lost
+                raise OutsideSubset(f"subscript of unmodelled value ({obj.why}) may raise")
             return Opaque("subscript of unmodelled value")
         if isinstance(sl, ast.Slice):
             lo = self.eval(sl.lower) if sl.lower is not None else None
             hi = self.eval(sl.upper) if sl.upper is not None else None
             if sl.step is not None:
                 raise OutsideSubset("slice step")
+            slhook = getattr(obj, "_pyvc_getslice", None)       # (additive) lists of symbolic length, vc.pystrops
+            if slhook is not None:
+                return slhook(eng, lo, hi)
             if isinstance(obj, (list, tuple, str)) and not is_sym(lo) and not is_sym(hi):
                 return obj[lo:hi]
             if is_sym(obj) and obj.sort == STR and not is_sym(lo) and not is_sym(hi):
@@ -1370,6 +1376,8 @@ class Frame:
         if hook is not None:
             return hook(eng, key)
         if isinstance(key, Opaque):
+            if getattr(eng, "strict_partial_ops", False):
+                raise OutsideSubset(f"subscript with unmodelled key ({key.why}) may raise")
             return Opaque("subscript with unmodelled key")
         if isinstance(obj, dict):
             if isinstance(key, SymEnum):
@@ -1471,7 +1479,13 @@ class Frame:
     def getattr(self, obj: Any, name: str) -> Any:  # noqa: C901
         eng = self.eng
         if isinstance(obj, Opaque):
+            if getattr(eng, "strict_partial_ops", False):
+                # (additive, vc.pystrops) totality clauses: the value may be None / lack the attribute
+                raise OutsideSubset(f"attribute {name} of unmodelled value ({obj.why}) may raise")
             return Opaque(f"{obj.why}.{name}")
+        if obj is None and getattr(eng, "none_attr_raises", False):
+            raise RaiseSignal(ObjV(builtin_class("AttributeError"), {},
+                                   (f"'NoneType' object has no attribute '{name}'",)))
         if isinstance(obj, ModuleV):
             if obj.external:
                 full = f"{obj.name}.{name}"
